@@ -172,7 +172,7 @@ def cases(rng, seeds):
             for s in list(seeds) + [seeds[0] + 100 + i for i in range(12)]:
                 out.append((f"watts_strogatz_hypergraph({n},{d},{k},{l},p={prob})", P("random", n=n, sizes=list(range(1, d + 1))),
                             lambda n=n, d=d, k=k, l=l, prob=prob, s=s: xgi.watts_strogatz_hypergraph(n, d, k, l, prob, seed=s)))
-    for a, b, d in ((1, 1, 0), (2, 3, 1), (3, 3, 2), (4, 2, 1), (2, 4, 3), (1, 3, 2)):
+    for a, b, d in ((1, 1, 0), (2, 3, 1), (3, 3, 2), (4, 2, 1), (2, 4, 3), (1, 3, 2), (2, 3, 0), (3, 2, 0), (1, 4, 0)):
         out.append((f"star_clique({a},{b},{d})", P("star_clique", a=a, b=b, d=d), lambda a=a, b=b, d=d: xgi.star_clique(a, b, d)))
     for l, c, m in ((3, 1, 3), (2, 2, 4), (4, 0, 2), (3, 2, 2), (1, 1, 3), (2, 3, 3)):
         out.append((f"sunflower({l},{c},{m})", P("sunflower", l=l, c=c, m=m), lambda l=l, c=c, m=m: xgi.sunflower(l, c, m)))
@@ -186,6 +186,16 @@ def cases(rng, seeds):
                             P("complete", n=n, sizes=list(range(1 if sing else 2, mo + 2))),
                             lambda n=n, mo=mo, sing=sing: xgi.complete_hypergraph(n, max_order=mo, include_singletons=sing)))
     # simplicial complexes
+    for n in (2, 3):   # fewer nodes than the largest order needs: the lower orders are still due
+        for ps in ([1, 1], [1, 1, 1], [0.3, 1, 1], [1, 0.5, 1]):
+            sizes_ = list(range(2, len(ps) + 2))
+            one = [k for k, q in zip(sizes_, ps) if q == 1 and k <= n]
+            # every size below a complete one is complete as well (faces), as far as n allows
+            if one:
+                one = [k for k in sizes_ if k <= max(one)]
+            for s in seeds[:2]:
+                out.append((f"random_simplicial_complex({n},{ps})", P("sc", nodes=list(range(n)), sizes=[1] + sizes_, one=one),
+                            lambda n=n, ps=ps, s=s: xgi.random_simplicial_complex(n, ps, seed=s)))
     for n in (3, 4, 5):
         for ps in itertools.product(probs, repeat=2):
             ps = list(ps)
